@@ -20,7 +20,22 @@ import vf
 
 
 def run_package(c, sc, pkg, shapes, seed, prop="C07"):
-    """-> list of events (Generate first)"""
+    """-> list of events (Generate first).  A failing stage is confirmed by a second, independent run of the same package
+    (go/packages occasionally fails to load a scratch package for reasons unrelated to its content); only a failure that
+    repeats is reported.  Differing output between the two generator runs (deterministic = false) is never retried."""
+    evs = _run_package_once(c, sc, pkg, shapes, seed)
+    g = evs[0]
+    if g["deterministic"] and not (g["gombok"] and g["build"] and g["vet"] and g["driver"]):
+        shutil.rmtree(os.path.join(sc.root, pkg), ignore_errors=True)
+        evs2 = _run_package_once(c, sc, pkg, shapes, seed)
+        g2 = evs2[0]
+        if g2["gombok"] and g2["build"] and g2["vet"] and g2["driver"]:
+            c.extra["unrepeated_stage_failures"] = c.extra.get("unrepeated_stage_failures", []) + [dict(pkg=pkg, msg=g.get("msg", "")[-300:])]
+        return evs2
+    return evs
+
+
+def _run_package_once(c, sc, pkg, shapes, seed):
     types_go, registry = G.go_source(pkg, shapes)
     sc.package(pkg, types_go, {"registry_test.go": registry})
     rc, out = sc.generate(pkg, gomaxprocs=1)
